@@ -100,7 +100,7 @@ GhostInit == [q2in |-> <<>>, unacked |-> <<>>, txed |-> <<>>, ackd |-> <<>>, pub
               seen |-> {}, connacks |-> <<>>, discd |-> {}, rm |-> <<>>, tam |-> <<>>, mps |-> <<>>,
               will |-> <<>>, pendw |-> <<>>, nowill |-> {}, willsent |-> {}, aliasOut |-> <<>>, aliasIn |-> <<>>,
               expm |-> <<>>, deadR |-> {}, deadI |-> {}, dsdel |-> <<>>, resentOn |-> {},
-              sdr |-> {}, rdr |-> {}, clob |-> <<>>, wipedw |-> {}, rpi |-> <<>>, subG |-> <<>>]
+              sdr |-> {}, rdr |-> {}, clob |-> <<>>, wipedw |-> {}, rpi |-> <<>>, subG |-> <<>>, optG |-> <<>>]
 
 (* ================================================================== publications of a step *)
 Qos2Open(c, pid) == pid \in Get(g.q2in, c, {})
@@ -574,6 +574,21 @@ GhostNextOf(i) ==
                                    THEN {k \in DOMAIN g.will : \E h \in Hooks(e) : h.h = "will_sent" /\ h.c = g.will[k].c /\ h.m # g.will[k].m}
                                    ELSE {}),
         rpi |-> IF isConn THEN Put(g.rpi, e.k, IF e.a.v = 5 THEN e.a.rpi ELSE -1) ELSE g.rpi,
+        \* the options of the subscriptions of the current session according to the protocol history: client -> (filter
+        \* string -> [qos requested, rap, nl, id]); the latest granted SUBSCRIBE of a filter replaces its options
+        optG |-> [c0 \in ids |->
+                    LET base == IF SessionEndsIn(i, c0) THEN <<>> ELSE Get(g.optG, c0, <<>>)
+                        sa == SelectSeq(OutOf(e, e.k), LAMBDA q : q.t = SUBACK)
+                        grantedN == IF ok /\ e.c = c0 /\ e.ev = "subscribe" /\ Len(sa) = 1 /\ Len(sa[1].codes) = Len(e.a.filters)
+                                      THEN {m \in 1..Len(e.a.filters) : sa[1].codes[m] < 128} ELSE {}
+                        newF == {JoinL(e.a.filters[n].f) : n \in grantedN}
+                        lastOf(fs) == CHOOSE n \in grantedN : JoinL(e.a.filters[n].f) = fs /\ \A m \in grantedN : JoinL(e.a.filters[m].f) = fs => m <= n
+                        gone == IF ok /\ e.c = c0 /\ e.ev = "unsubscribe" THEN {JoinL(e.a.filters[n].f) : n \in 1..Len(e.a.filters)} ELSE {} IN
+                    [fs \in (DOMAIN base \cup newF) \ gone |->
+                        IF fs \in newF
+                          THEN LET f == e.a.filters[lastOf(fs)] IN
+                               [qos |-> f.qos, rap |-> (e.v = 5 /\ f.rap), nl |-> (e.v = 5 /\ f.nl), id |-> IF e.v = 5 THEN e.a.subid ELSE 0]
+                          ELSE base[fs]]],
         \* the filters the CURRENT session of a client holds according to the protocol history (granted SUBSCRIBEs minus
         \* UNSUBSCRIBEs since the session began) - deliberately not read from the broker's topic index
         subG |-> [c0 \in ids |->
@@ -1039,10 +1054,36 @@ J_C25(i) ==
     >>)
 
 (* ================================================================== all rules of one line *)
+(* membership of share groups: a client that subscribed to $share/<group>/<filter> in its current session and has   *)
+(* not unsubscribed from it is a member of that group in the broker's topic index - whatever other clients did      *)
+J_C06S(i) ==
+    LET e == Trace[i]
+        G == GhostNextOf(i).subG IN
+    ForAll({c \in DOMAIN G : HasClient(e.st, c)}, LAMBDA c :
+        ForAll({fs \in G[c] : \E s \in Subs(Pre(i)) : s.kind = "shared" /\ s.c = c /\ s.fs = fs}, LAMBDA fs :
+            If(~(\E s \in Subs(e.st) : s.kind = "shared" /\ s.c = c /\ s.fs = fs)
+                 /\ ~(e.c = c /\ e.ev \in {"unsubscribe", "connect", "disconnect", "netdrop"}),
+               Cmp("C06.group-member-lost", c, fs, 0))))
+
+(* the options under which the broker's topic index holds a client's (non-shared) subscription are those of the     *)
+(* client's latest granted SUBSCRIBE of that filter in the current session (they decide QoS, identifiers, retain    *)
+(* flag of every later delivery)                                                                                    *)
+J_C04S(i) ==
+    LET e == Trace[i] IN
+    ForAll({s \in Subs(e.st) : s.kind = "client" /\ s.c \in DOMAIN g.optG /\ HasClient(e.st, s.c)}, LAMBDA s :
+        LET O == GhostNextOf(i).optG IN
+        IF ~(s.c \in DOMAIN O /\ s.fs \in DOMAIN O[s.c]) THEN <<>> ELSE
+        LET o == O[s.c][s.fs] IN
+        If(s.qos # o.qos \/ s.rap # o.rap \/ s.nl # o.nl \/ s.id # o.id,
+           Cmp("C04.subscription-options-stale", s.c, s.fs, s.qos)))
+
+
 Judge(i) ==
     Cat(<<If(T("C03"), J_C03(i) \o J_Spurious(i)),
           If(T("C06"), J_C06(i)),
           If(T("C04"), J_C04(i) \o J_C04R(i)),
+          If(T("C04"), J_C04S(i)),
+          If(T("C06"), J_C06S(i)),
           If(T("C05"), J_C05(i)),
           If(T("C07"), J_C07(i)),
           If(T("C08"), J_C08(i)),
